@@ -14,7 +14,7 @@ import (
 )
 
 var profile = histeng.Profile{MaxTargets: 5, Edits: []string{"edit-content", "bump-nonce"},
-	ExtSteps: []string{"clear-marker", "clear-marker", "set-marker", "toggle-noestablish", "set-skipout", "set-skipout", "set-slow", "set-selfkill", "set-wrongestablish", "set-wrongestablish", "clear-switches"},
+	ExtSteps: []string{"clear-marker", "clear-marker", "set-marker", "toggle-noestablish", "set-skipout", "set-skipout", "set-softfail", "set-slow", "set-selfkill", "set-wrongestablish", "set-wrongestablish", "clear-switches"},
 	Checks:   true, Timeouts: true, MinSteps: 4, MaxSteps: 12, SubsetBuilds: true, Minimal: true}
 
 func run(h histeng.History) (pbt.Result, error) {
